@@ -13,6 +13,8 @@ struct Case {
     double lo[3], hi[3], voxel;
     std::vector<double> pts;  // xyz triples, all inside [lo,hi]
     std::vector<double> qry;  // query points, inside [lo,hi]
+    std::vector<double> moves;  // per further round 6 numbers (in voxels): displacement of the lower and of the upper corner; the SAME grid
+                                // object is re-dimensioned (update_dimensions) and re-populated, as the contact models do every iteration
     int cls = 0;
     void write(vf::Writer& w) const {
         for (double v : lo) w.d(v);
@@ -22,6 +24,7 @@ struct Case {
         w.nl();
         w.vd(pts);
         w.vd(qry);
+        w.vd(moves);
     }
     static Case read(vf::Reader& r) {
         Case c;
@@ -31,6 +34,7 @@ struct Case {
         c.cls = (int)r.i();
         c.pts = r.vd();
         c.qry = r.vd();
+        if (r.more()) c.moves = r.vd();
         return c;
     }
 };
@@ -93,18 +97,63 @@ static rc::Gen<Case> genCase() {
         int nq = *irange(1, 12);
         for (int i = 0; i < nq; i++)
             for (int k = 0; k < 3; k++) c.qry.push_back(coord(k));
+        const int rounds = *rc::gen::element(0, 0, 1, 2, 3);
+        for (int r = 0; r < rounds; r++) {
+            // the box slides, grows or shrinks by whole and fractional voxels, independently per axis and per corner
+            const int mode = *irange(0, 3);
+            for (int q = 0; q < 6; q++) {
+                double d = *rc::gen::element(0.0, 0.0, 1.0, -1.0, 0.37, -0.37, 3.0, -3.0, 2.5, -0.5);
+                if (mode == 0) d = q % 3 == 2 ? d : 0.0;               // along z only
+                if (mode == 1 && q >= 3) d = c.moves[c.moves.size() - 3];  // rigid slide: both corners move alike
+                c.moves.push_back(d);
+            }
+        }
         return c;
     });
 }
 
 template <class Grid, bool MULTI>
-static std::string run_grid(const Case& c, vf::Ctx& ctx) {
-    const size_t np = c.pts.size() / 3, nq = c.qry.size() / 3;
-    Grid g(c.lo[0], c.lo[1], c.lo[2], c.hi[0], c.hi[1], c.hi[2], c.voxel, np);
+static std::string run_grid(const Case& c0, vf::Ctx& ctx) {
+    const size_t np = c0.pts.size() / 3, nq = c0.qry.size() / 3;
+    Grid g(c0.lo[0], c0.lo[1], c0.lo[2], c0.hi[0], c0.hi[1], c0.hi[2], c0.voxel, np);
+    const size_t rounds = c0.moves.size() / 6;
+    Case c = c0;
+    for (size_t round = 0; round <= rounds; round++) {
+    if (round > 0) {
+        // new box; the points keep their relative position in the box (a point on a face stays exactly on that face)
+        Case n = c;
+        for (int k = 0; k < 3; k++) {
+            n.lo[k] = c.lo[k] + c0.moves[6 * (round - 1) + k] * c.voxel;
+            n.hi[k] = c.hi[k] + c0.moves[6 * (round - 1) + 3 + k] * c.voxel;
+            if (!(n.hi[k] - n.lo[k] >= 0.3 * c.voxel)) n.hi[k] = n.lo[k] + 0.3 * c.voxel;
+            if (n.hi[k] - n.lo[k] > 60 * c.voxel) n.hi[k] = n.lo[k] + 60 * c.voxel;
+        }
+        auto remap = [&](std::vector<double>& v) {
+            for (size_t i = 0; i < v.size(); i++) {
+                const int k = (int)(i % 3);
+                const double x = v[i];
+                if (x == c.lo[k]) v[i] = n.lo[k];
+                else if (x == c.hi[k]) v[i] = n.hi[k];
+                else {
+                    double t = (x - c.lo[k]) / (c.hi[k] - c.lo[k]);
+                    double y = n.lo[k] + t * (n.hi[k] - n.lo[k]);
+                    v[i] = std::min(n.hi[k], std::max(n.lo[k], y));
+                }
+            }
+        };
+        remap(n.pts), remap(n.qry);
+        c = n;
+        g.update_dimensions(np, c.lo[0], c.lo[1], c.lo[2], c.hi[0], c.hi[1], c.hi[2]);
+        size_t left = 0;
+        for (int o : g.get_grid_content()) (void)o, left++;
+        if (left != 0) return "update_dimensions left objects in the grid";
+        ctx.count("round_on_redimensioned_grid");
+    }
     const auto nb = g.get_nb_voxels();
     const auto mn = g.get_min_corner();
     std::ostringstream os;
     os << std::setprecision(17);
+    if (round > 0) os << "round " << round << " on the re-dimensioned grid (box [" << c.lo[0] << "," << c.hi[0] << "]x[" << c.lo[1] << "," << c.hi[1] << "]x[" << c.lo[2] << "," << c.hi[2] << "]): ";
     for (int k = 0; k < 3; k++)
         if (nb[k] == 0 || nb[k] > 100000) {
             os << "grid has " << nb[k] << " voxels along axis " << k;
@@ -198,6 +247,7 @@ static std::string run_grid(const Case& c, vf::Ctx& ctx) {
                     return os.str();
                 }
     }
+    if (round < rounds) continue;
     // update_dimensions empties the grid
     g.update_dimensions(np, c.lo[0], c.lo[1], c.lo[2], c.hi[0], c.hi[1], c.hi[2]);
     {
@@ -216,6 +266,7 @@ static std::string run_grid(const Case& c, vf::Ctx& ctx) {
            << c.voxel << " -> " << nb[0] << "x" << nb[1] << "x" << nb[2] << " voxels, " << np << " points, " << nq << " queries";
         ctx.sample(s2.str());
     }
+    }  // rounds
     return "";
 }
 
